@@ -16,6 +16,9 @@ use serde::{Deserialize, Serialize};
 pub struct Case {
     pub a: CircSpec,
     pub b: CircSpec,
+    /// split point of the push_front / push_back construction of `a` (0 = push only)
+    #[serde(default)]
+    pub split: u16,
 }
 
 fn unitary_flat<R: Ring>(c: &Circ) -> Vec<R> {
@@ -108,9 +111,35 @@ fn gate_is_clifford(g: &csim::MGate) -> Option<bool> {
     Some(true)
 }
 
-fn check_in<R: Ring>(a: &Circ, b: &Circ, obs: &mut Obs) -> Result<(), String> {
-    let qa = a.to_quizx();
+fn check_in<R: Ring>(a: &Circ, b: &Circ, split: usize, obs: &mut Obs) -> Result<(), String> {
+    let qa = a.to_quizx_layout(split);
     let qb = b.to_quizx();
+    if !qa.gates.iter().eq(a.to_quizx_layout(0).gates.iter()) {
+        return Err(format!("push_front/push_back construction (split {split}) gives a different gate list than push"));
+    }
+    // the in-place forms, on freshly built objects (a clone would re-lay the gate deque out)
+    {
+        let mut x = a.to_quizx_layout(split);
+        guarded("reverse (in place)", || x.reverse())?;
+        let want: Vec<csim::MGate> = a.gates.iter().rev().cloned().collect();
+        if from_q(&x)?.gates != want {
+            return Err(format!("reverse() in place (circuit built with split {split}) is not the reversed gate list"));
+        }
+        let mut y = a.to_quizx_layout(split);
+        guarded("adjoint (in place)", || y.adjoint())?;
+        let by_value = guarded("to_adjoint", || qa.to_adjoint())?;
+        if y != by_value {
+            return Err(format!("adjoint() in place (circuit built with split {split}) differs from to_adjoint()"));
+        }
+        let mut z = a.to_quizx_layout(split);
+        let z0 = a.to_quizx_layout(split);
+        guarded("adjoint (in place)", || z.adjoint())?;
+        let both = guarded("c + adjoint", || &z0 + &z)?;
+        let u = unitary_flat::<R>(&from_q(&both)?);
+        let dim = 1usize << a.n;
+        let ident: Vec<R> = (0..dim * dim).map(|i| if i / dim == i % dim { R::one() } else { R::zero() }).collect();
+        same_flat(&u, &ident).map_err(|e| format!("c followed by its in-place adjoint (built with split {split}) is not the identity: {e}"))?;
+    }
     let ua = unitary_flat::<R>(a);
     let dim = 1usize << a.n;
     // adjoint
@@ -128,8 +157,8 @@ fn check_in<R: Ring>(a: &Circ, b: &Circ, obs: &mut Obs) -> Result<(), String> {
     }
     let mut rr = qa.clone();
     rr.reverse();
-    if a.gates.len() > 1 && rr.gates.iter().eq(qa.gates.iter()) && a.gates.first() != a.gates.last() {
-        return Err("reverse did not reverse".into());
+    if !rr.gates.iter().eq(qa.gates.iter().rev()) {
+        return Err("reverse() is not the reversed gate list".into());
     }
     rr.reverse();
     if rr != qa {
@@ -238,6 +267,8 @@ fn check(case: &Case, obs: &mut Obs) -> Result<(), String> {
     if unordered {
         obs.nontrivial();
     }
+    let split = if a.gates.is_empty() { 0 } else { crate::gen::idx(case.split, a.gates.len() + 1) };
+    obs.class_if(split > 0 && split < a.gates.len(), "built-from-the-middle");
     for g in &a.gates {
         match g.k {
             GK::Ccx => obs.class("ccx"),
@@ -251,10 +282,10 @@ fn check(case: &Case, obs: &mut Obs) -> Result<(), String> {
     obs.classes.dedup();
     if a.all_phases_quarter() && b.all_phases_quarter() {
         obs.class("exact");
-        check_in::<Zw>(&a, &b, obs)
+        check_in::<Zw>(&a, &b, split, obs)
     } else {
         obs.class("float");
-        check_in::<C64>(&a, &b, obs)
+        check_in::<C64>(&a, &b, split, obs)
     }
 }
 
@@ -291,12 +322,12 @@ pub fn def(ctx: &Ctx) -> PropertyDef {
             };
             let mut pb = p.clone();
             pb.max_gates = 6;
-            (spec_with_empty_pp(p), spec_with_empty_pp(pb)).prop_map(|(a, b)| Case { a, b })
+            (spec_with_empty_pp(p), spec_with_empty_pp(pb), prop_oneof![1 => Just(0u16), 3 => any::<u16>()]).prop_map(|(a, b, split)| Case { a, b, split })
         }
     };
     PropertyDef {
         id: "C15",
-        rule: "random unitary circuits (<=6 qubits) incl. ccx, ccz and pp of arity 0-5 with arbitrary qubit order and rational phases: c followed by c.to_adjoint() simulates to the identity; to_basic_gates keeps the unitary exactly, has exactly sum(num_basic_gates) gates, all basic and on <=2 qubits; all four Add impls and += give the concatenated gate list and the composed unitary; reverse/adjoint are involutions; stats partition the gates and never call a semantically non-Clifford gate Clifford. Non-trivial = contains ccx/ccz/pp(arity>=2) with qubit arguments not in ascending order. Distinct by hash of the case.",
+        rule: "random unitary circuits (<=6 qubits) incl. ccx, ccz and pp of arity 0-5 with arbitrary qubit order and rational phases: c followed by c.to_adjoint() simulates to the identity; to_basic_gates keeps the unitary exactly, has exactly sum(num_basic_gates) gates, all basic and on <=2 qubits; all four Add impls and += give the concatenated gate list and the composed unitary; reverse/adjoint are involutions; the circuit under test is built from a generated split point outwards with push_front/push_back (a wrapped gate deque) and the in-place reverse()/adjoint() must equal the reversed model gate list / to_adjoint() and invert the circuit; stats partition the gates and never call a semantically non-Clifford gate Clifford. Non-trivial = contains ccx/ccz/pp(arity>=2) with qubit arguments not in ascending order. Distinct by hash of the case.",
         assumptions: vec![
             "harness gate-matrix simulator (see selftest)",
             "semantically Clifford gates that the statistics count as non-Clifford (xcx, pp with Clifford phase) are only reported as a class: the statement asks for a consistent partition",
